@@ -19,7 +19,7 @@ func checkPlanFor(prop, tier string) *checkPlan {
 	case "C05":
 		return &checkPlan{Prop: prop, Level: "exploration", BudgetS: n(240, 2400), Measure: "nontrivial",
 			Batches: []batchSpec{
-				{Label: "hist", Engine: "hist", Prop: "C05", Runs: n(320, 20000), FaultFree: true},
+				{Label: "hist", Engine: "hist", Prop: "C05", Runs: n(320, 20000), FaultFree: true, Share: 5},
 				{Label: "repeat-sweep", Engine: "hist", Prop: "C05", Mode: "sweep:%d/64", Runs: n(64, 64), FaultFree: true},
 				{Label: "synth-repeat", Engine: "hist", Prop: "C05", Mode: "synthsweep:%d/1", Runs: n(64, 1500), FaultFree: true},
 				{Label: "env", Engine: "hist", Prop: "C05", Runs: n(96, 1500), Special: "env"},
@@ -49,7 +49,7 @@ func checkPlanFor(prop, tier string) *checkPlan {
 	case "C11":
 		return &checkPlan{Prop: prop, Level: "fault_enumeration", BudgetS: n(240, 2400), Measure: "nontrivial",
 			Batches: []batchSpec{
-				{Label: "hist+transport-faults", Engine: "hist", Prop: "C11", Runs: n(400, 20000)},
+				{Label: "hist+transport-faults", Engine: "hist", Prop: "C11", Runs: n(400, 20000), Share: 3},
 				{Label: "hist-fault-free", Engine: "hist", Prop: "C11", Mode: "nofault", Runs: n(120, 6000), FaultFree: true},
 				{Label: "torn-file-sweep", Engine: "hist", Prop: "C11", Mode: "tornsweep:%d/32", Runs: n(32, 256)},
 				{Label: "fault-probes", Engine: "fault", Prop: "C11", Runs: n(160, 8000)},
@@ -79,7 +79,7 @@ func checkPlanMore(prop, tier string, n func(int, int) int, comp map[string][]st
 	case "C10":
 		return &checkPlan{Prop: prop, Level: "exploration", BudgetS: n(300, 3000), Measure: "nontrivial",
 			Batches: []batchSpec{
-				{Label: "sched", Engine: "sched", Prop: "C10", Runs: n(3000, 60000), FaultFree: true},
+				{Label: "sched", Engine: "sched", Prop: "C10", Runs: n(3000, 60000), FaultFree: true, Share: 2},
 				{Label: "race-gomaxprocs1", Engine: "sched", Prop: "C10", Mode: "free", Race: true, MaxProcs: 1, Runs: n(20, 150), FaultFree: true},
 				{Label: "race-gomaxprocs4", Engine: "sched", Prop: "C10", Mode: "free", Race: true, MaxProcs: 4, Runs: n(24, 150), FaultFree: true},
 				{Label: "race-gomaxprocs16", Engine: "sched", Prop: "C10", Mode: "free", Race: true, MaxProcs: 16, Runs: n(30, 200), FaultFree: true},
